@@ -7,7 +7,7 @@ P=$1; S=$2; shift 2
 for ID in "$@"; do
   O=/tmp/$P-$ID-out
   [ -f $O/patch.diff ] || { echo "$ID: no patch yet"; continue; }
-  c=$(SEEDPREFIX=$P lib/seedconfirm.sh $ID 2>&1 | tail -3 | grep "demo_with_exit")
+  c=$(SEEDPREFIX=$P lib/seedconfirm.sh $ID 2>&1 | grep "demo_with_exit")
   case "$c" in *"demo_with_exit=1 (want 1) demo_without_exit=0 (want 0) suite_with_exit=0"*) ok=1;; *) ok=0;; esac
   if [ $ok -ne 1 ]; then echo "$ID: NOT CONFIRMED: $c"; continue; fi
   D=seeded/$ID$S; mkdir -p $D
